@@ -263,6 +263,15 @@ func guardedNote(w *strings.Builder, b *box, by int) {
 	fmt.Fprintln(w, "held", b.v)
 }
 
+// a helper that defers and returns a value computed before its deferred call runs
+func countAfter(b *box) int {
+	defer b.add(5)
+	if b.v < 0 {
+		return -1
+	}
+	return b.v + 1
+}
+
 func tail(w *strings.Builder, name string) (string, error) {
 	defer fmt.Fprintln(w, "tail done", name)
 	fmt.Fprintln(w, "tail start", name)
@@ -468,6 +477,34 @@ func run(w *strings.Builder) error {
 		v, err := tail(w, nm)
 		fmt.Fprintln(w, "tail:", v, err)
 	}
+	// a helper call nested in the operand of a range, a switch tag and an if condition
+	twice := func(k string) string { note("twice " + k); return k + "," + k + "x" }
+	for i, part := range strings.Split(twice("r"), ",") {
+		fmt.Fprintln(w, "part", i, part)
+	}
+	switch strings.ToUpper(twice("s")) {
+	case "S,SX":
+		fmt.Fprintln(w, "tag matched")
+	default:
+		fmt.Fprintln(w, "tag missed")
+	}
+	if strings.HasPrefix(twice("t"), "t,") && note("rhs") > 0 {
+		fmt.Fprintln(w, "cond held")
+	}
+	// helpers that defer, called for their value in the middle of the caller: the deferred calls run
+	// after the results are evaluated and before the caller goes on
+	for _, nm := range []string{"p", ""} {
+		v, err := closing(w, nm)
+		fmt.Fprintln(w, "closing:", v, err)
+		if s, err := closing(w, nm+"2"); err == nil {
+			fmt.Fprintln(w, "closing ok", s)
+		}
+	}
+	cb := &box{v: 3}
+	n1 := countAfter(cb)
+	fmt.Fprintln(w, "countAfter", n1, cb.v)
+	cb.v = -9
+	fmt.Fprintln(w, "countAfter", countAfter(cb), cb.v)
 	// generic receiver
 	var gc cache[string, int]
 	fmt.Fprintln(w, gc.getOr("a", func() int { return note("mk1") }), gc.getOr("a", func() int { return note("mk2") }), gc.hits, len(gc.m))
